@@ -10,7 +10,7 @@ import re
 
 import vlib, ucheck
 from vlib import VERIF
-from C28 import load_known, report, hx
+from C28 import load_known, report, hx, conformance
 
 SPEC = os.path.join(VERIF, 'spec', 'syntax')
 FLAGS = ['public', 'no-store', 'no-transform', 'must-revalidate', 'proxy-revalidate', 'only-if-cached', 'immutable']
@@ -177,7 +177,7 @@ def run(ctx):
     ctx.cov['spec_law_states'] = mc.distinct
     ctx.cov['spec_law_directive_texts'] = len(el)
     ctx.log('reference laws hold on %d directive lists over %d directive texts' % (mc.distinct, len(el)))
-    exe = ucheck.build_like_test(ctx, 'cc', 'testHttpReply', ['u_cc.cc', 'uhelp.cc'], add=['src/CommCalls.cc'])
+    exe = ucheck.build_like_test(ctx, 'cc', 'testHttpReply', ['u_cc.cc', 'uhelp.cc'], add=['src/CommCalls.cc', 'src/SquidConfig.cc'])
     cases = gen(ctx)
     lines = ['C %s' % hx(v) for v in cases]
     ctx.log('driver built; %d cases' % len(lines))
@@ -185,7 +185,7 @@ def run(ctx):
     outs = [json.loads(l) for l in r.stdout.splitlines() if l.startswith('{')]
     if len(outs) != len(lines):
         raise vlib.MachineryError('driver answered %d of %d (rc=%s) %s' % (len(outs), len(lines), r.returncode, r.stderr[-800:]))
-    prej, irej = ucheck.conformance(ctx, os.path.join(SPEC, 'Conf_CacheControl.tla'), os.path.join(SPEC, 'Conf_CacheControl.cfg'), outs, 'cc')
+    prej, irej = conformance(ctx, os.path.join(SPEC, 'Conf_CacheControl.tla'), os.path.join(SPEC, 'Conf_CacheControl.cfg'), outs, 'cc')
     ctx.log('TLC evaluated %d cases: P-rejected %d, I-rejected %d' % (len(outs), len(prej), len(irej)))
     known = load_known('C29')
     iset, hist = set(irej), {}
